@@ -2,7 +2,7 @@
    This file only states the property theorems and prints their assumptions. *)
 From Coq Require Import QArith List Bool Lqa.
 From Cobra.LP Require Import Defs Cert Fba.
-From Cobra.Loopless Require Import Model Proofs Check.
+From Cobra.Loopless Require Import Model Proofs Split Enum Check.
 Import ListNotations.
 Open Scope Q_scope.
 
@@ -47,6 +47,18 @@ Theorem C17_cycle_free_minimal : forall pn m w opt v z,
 Proof. exact cycle_free_minimal. Qed.
 Print Assumptions C17_cycle_free_minimal.
 
+(* cobrapy's forward/reverse encoding of that problem has the same net fluxes and the same objective *)
+Theorem C17_split_encoding : forall pn m w opt,
+  length w = length (rxns m) -> valid_model (cf_model m w) ->
+  (forall zs, feasible (cf_split_lp pn m w opt) (flat zs) ->
+     feasible (cf_lp pn m w opt) (nets zs) /\
+     value (cf_split_lp pn m w opt) (flat zs) == value (cf_lp pn m w opt) (nets zs)) /\
+  (forall v, feasible (cf_lp pn m w opt) v ->
+     feasible (cf_split_lp pn m w opt) (flat (splits v)) /\
+     value (cf_split_lp pn m w opt) (flat (splits v)) == value (cf_lp pn m w opt) v).
+Proof. exact cf_split_equiv. Qed.
+Print Assumptions C17_split_encoding.
+
 (* Every feasible point of the constraint system added by add_loopless is free of internal cycles,
    given that the rows of N span the null space of the internal stoichiometry.  PARTIAL: the converse
    (add_loopless_complete_statement, Proofs.v) is not proved; it is validated per instance by the
@@ -62,6 +74,20 @@ Theorem C17_add_loopless_sound : forall M S N xs,
   spans (length xs) S N -> ll_feasible M N xs -> ~ has_cycle S (map lv_v xs).
 Proof. exact add_loopless_sound. Qed.
 Print Assumptions C17_add_loopless_sound.
+
+(* the brute-force oracle: what a successful run of the enumeration checker means *)
+Theorem C17_enumeration_sound : forall m es best,
+  loopless_optimum m es = Some best ->
+  forall v, feasible (net_lp m) v -> ~ has_cycle (s_int m) (select (rxns m) v) ->
+  exists b, best = Some b /\ value (net_lp m) v <= b.
+Proof. exact loopless_optimum_upper. Qed.
+Print Assumptions C17_enumeration_sound.
+
+Theorem C17_enumeration_attained : forall m es b,
+  loopless_optimum m es = Some (Some b) ->
+  exists v, feasible (net_lp m) v /\ ~ has_cycle (s_int m) (select (rxns m) v) /\ value (net_lp m) v == b.
+Proof. exact loopless_optimum_attained. Qed.
+Print Assumptions C17_enumeration_attained.
 
 (* ---- non-vacuity: uptake of A (<= 10), the loop A -> B -> C -> A, demand of B (objective) ---- *)
 Definition toy : fbamodel :=
